@@ -113,6 +113,9 @@ class RandomForestSampler(MLSurrogateSampler):
         """Predict using a random forest surrogate model."""
         # Predict quantiles
         self._classifier = cast(RandomForestClassifier, self._classifier)
+        # add up the trees' votes sequentially: with threads the order of the additions (hence the rounding of
+        # the class probabilities, which decides ties) depends on timing and the sampler is not reproducible
+        self._classifier.set_params(n_jobs=1)
         predicted_points_quantiles: NDArray[np.float64] = self._classifier.predict(X)
 
         return predicted_points_quantiles
